@@ -305,6 +305,36 @@ def run(ctx):
         events.append({"kind": "cmpany", "n": n, "out": bits(out) if isinstance(out, binary_sequence) else [2]})
         meta.append(("cmpany", op))
         ctx.case(("cmpany", op, noise is not None, thr_arr))
+    # the same signal object decided, edited (samples or noise re-assigned or overwritten in place - the documented idiom x.noise = ...) and decided
+    # again: the decision follows the record held NOW
+    rs_ = np.random.RandomState(ctx.seed % 1000 + 77)
+    for case in range(16 if T else 8):
+        n_ = [1, 2, 7, 16][case % 4]
+        K = 64
+        mk_ = lambda: rs_.randint(-200, 200, n_) / K
+        sig_, noise_, thr_ = np.abs(mk_()) + 1.0, (rs_.randint(-50, 50, n_) / K), 1.0 + abs(float(mk_()[0]))
+        E = electrical_signal(sig_.copy(), noise_.copy())
+        with deadline(30):
+            first = E > thr_
+        events.append({"kind": "cmp", "op": "gt", "sig": [int(round(v * K)) for v in sig_], "noise": [int(round(v * K)) for v in noise_], "thr": [int(round(thr_ * K))], "out": bits(first)})
+        meta.append(("cmp", "gt-before-edit"))
+        sig2, noise2 = np.abs(mk_()) + 1.0, (rs_.randint(-50, 50, n_) / K)
+        mode = case % 4
+        if mode == 0:
+            E.noise = noise2.copy(); cur = (sig_, noise2)
+        elif mode == 1:
+            E.signal = sig2.copy(); cur = (sig2, noise_)
+        elif mode == 2:
+            E.signal[:] = sig2; cur = (sig2, noise_)
+        else:
+            E.noise[:] = noise2; E.signal *= 2; cur = (sig_ * 2, noise2)
+        for op in ("gt", "lt"):
+            with deadline(30):
+                out = (E > thr_) if op == "gt" else (E < thr_)
+            events.append({"kind": "cmp", "op": op, "sig": [int(round(v * K)) for v in cur[0]], "noise": [int(round(v * K)) for v in cur[1]], "thr": [int(round(thr_ * K))],
+                           "out": bits(out) if isinstance(out, binary_sequence) else [2]})
+            meta.append(("cmp", op + "-after-edit-%d" % mode))
+        ctx.case(("cmp-after-edit", mode, min(n_, 3)))
     # data that are not 1-D sequences of 0/1: the documented errors (ValueError / TypeError), whatever the shape of the offending input
     bad_inputs = [2, -1, 0.5, None, 1.5, [[0, 1], [1, 2]], "0 1; 1 2", [[0, 1], [1, 0]], np.array([[1, 0, 1]]), [0, 1, 2], "012", "0101\n", "01\t01", "1\r", "0\xa01",
                   "0b1", [0.5, 1], [1, None], np.array([0, 1, 3], dtype=np.uint8), [[[0]]], [-1, 1], np.array([1.0, 0.0, 1e-9]), {"a": 1}, "ab"]
